@@ -1,0 +1,14 @@
+//go:build verif
+
+package file
+
+// VerifCrashHook, when set, is called at every crash point of the file store (after each file
+// write, sync, seek, remove and open of SaveMessage / setSeqNum / setSession / Reset / Refresh),
+// so that a harness can snapshot the directory and track which bytes were synced.
+var VerifCrashHook func(point string)
+
+func crashPoint(point string) {
+	if h := VerifCrashHook; h != nil {
+		h(point)
+	}
+}
